@@ -293,7 +293,17 @@ pub fn build_xlsx(w: &Value) -> Vec<u8> {
         if !dn.is_empty() {
             wb.push_str(&format!("<{}>", q(p, "definedNames")));
             for d in dn {
-                wb.push_str(&format!("<{n} name=\"{}\">{}</{n}>", esc(d[0].as_str().unwrap()), esc(d[1].as_str().unwrap()), n = q(p, "definedName")));
+                // "defined_name_split": the value arrives in several XML events -- a comment after the first
+                // character and the rest partly as a CDATA section (both legal inside element content)
+                let v = d[1].as_str().unwrap();
+                let body = if w["defined_name_split"].as_bool().unwrap_or(false) && v.chars().count() >= 3 && !v.contains("]]>") {
+                    let cs: Vec<char> = v.chars().collect();
+                    let (a, b, c): (String, String, String) = (cs[..1].iter().collect(), cs[1..2].iter().collect(), cs[2..].iter().collect());
+                    format!("{}<!-- split -->{}<![CDATA[{}]]>", esc(&a), esc(&b), c)
+                } else {
+                    esc(v)
+                };
+                wb.push_str(&format!("<{n} name=\"{}\">{}</{n}>", esc(d[0].as_str().unwrap()), body, n = q(p, "definedName")));
             }
             wb.push_str(&format!("</{}>", q(p, "definedNames")));
         }
